@@ -196,7 +196,25 @@ CYCLES = {
   (ev/close c) (ev/close a) (ev/close s)'''),
     "tcp-connect-refused": ("net", r'''
   # nothing listens on the privileged port 1 (never handed out as an ephemeral port, so no other process is disturbed)
-  (assert (= :refused (try (do (def c (net/connect "127.0.0.1" "1")) (ev/close c) :connected) ([e] :refused))))'''),
+  # (under load another process on this box was once seen listening there: this cycle measures descriptors, both outcomes are fine)
+  (try (do (def c (net/connect "127.0.0.1" "1")) (ev/close c)) ([e] nil))
+  # the refusal path itself, on a name only this process uses
+  (assert (= :refused (try (do (def c (net/connect :unix (string "/tmp/c20-refused-" (os/getpid)))) (ev/close c) :connected) ([e] :refused))))'''),
+    # error paths found through the descriptor-ownership model (Loop/Fds.lean): an error raised while C locals hold descriptors
+    "spawn-badarg-with-pipes": ("proc", r'''
+  (assert (= :err (try (do (os/spawn ["true" 42] :p {:in :pipe :out :pipe}) :ok) ([e] :err))))
+  (assert (= :err (try (do (os/spawn ["true"] :p {:in :pipe :out 42}) :ok) ([e] :err))))
+  (assert (= :err (try (do (os/spawn ["true"] :p {:err :pipe :cd 1}) :ok) ([e] :err))))
+  (def f (file/open "/dev/null" :w)) (file/close f)
+  (assert (= :err (try (do (os/spawn ["true"] :p {:in :pipe :out f}) :ok) ([e] :err))))'''),
+    "file-open-bad-bufsize": ("cheap", r'''
+  (assert (= :err (try (do (file/open "/dev/null" :r "bad") :ok) ([e] :err))))
+  (assert (= :err (try (do (file/open "/dev/null" :r -1) :ok) ([e] :err))))
+  (def f (file/open "/dev/null" :r 0)) (file/close f)'''),
+    "spawn-std-source-redirect": ("proc", r'''
+  # {:err stdout}: the child takes the source from a close-on-exec duplicate (fcntl F_DUPFD) that the parent closes again
+  (def p (os/spawn ["true"] :p {:err stdout :out stderr}))
+  (os/proc-wait p)'''),
     "connect-fail-then-reuse-fd": ("cheap", r'''
   (try (net/connect :unix "/tmp/c20-no-such-socket") ([e] nil))
   (def [r w] (os/pipe))      # usually gets the descriptor number the failed connection had
